@@ -39,3 +39,93 @@ package server
 //@   opt frame=off
 //@   ensures route-iff-no-error: (r != nil) == (err == nil)
 //@   ensures fresh-route: r != nil ==> fresh(r)
+
+// ---- C29/C30: who may use a custom hostname
+//@ pure (*go.miragespace.co/specter/spec/protocol.CustomHostname).GetClientToken
+//@ pure (*go.miragespace.co/specter/spec/protocol.CustomHostname).GetClientIdentity
+//@ pure (*go.miragespace.co/specter/spec/protocol.ClientToken).GetToken
+//@ pure (*go.miragespace.co/specter/spec/protocol.Node).GetId
+//@ pure (*go.miragespace.co/specter/spec/protocol.Node).GetAddress
+//@ macro boundTo(b *protocol.CustomHostname, token *protocol.ClientToken, client *protocol.Node) bool = bytes.Equal(b.GetClientToken().GetToken(), token.GetToken()) && b.GetClientIdentity().GetId() == client.GetId() && b.GetClientIdentity().GetAddress() == client.GetAddress()
+
+//@ func (s *Server) checkAcme(ctx context.Context, hostname string, proof *protocol.ProofOfWork, token *protocol.ClientToken, client *protocol.Node) (found bool, err error)
+//@   safety off
+//@   opt frame=off
+//@   ghost perr error = nil
+//@   ghost looked bool = false
+//@   ghost ferr error = nil
+//@   ghost b *protocol.CustomHostname = nil
+//@   at call VerifySolution#1: assert proof-is-checked-for-this-hostname-with-the-acme-parameters: callarg0 == proof && callarg1.Difficulty == acme.HashcashDifficulty && callarg1.Expires == acme.HashcashExpires
+//@   at after call VerifySolution#1: ghost perr := callresult1
+//@   at call FindCustomHostname#1: assert binding-is-looked-up-only-for-an-admissible-hostname-with-valid-proof: perr == nil && !contains(hostname, s.Acme) && !contains(hostname, s.Apex) && strCount(hostname, ".") >= 2 && callarg1 == s.Chord && callarg2 == hostname
+//@   at after call FindCustomHostname#1: ghost ferr := callresult1
+//@   at after call FindCustomHostname#1: ghost b := callresult0
+//@   at after call FindCustomHostname#1: ghost looked := true
+//@   ensures local-invalid-proof-is-refused: perr != nil ==> (!found && err != nil)
+//@   ensures reserved-zones-are-refused: (contains(hostname, s.Acme) || contains(hostname, s.Apex)) ==> (!found && err != nil)
+//@   ensures bare-domains-are-refused: strCount(hostname, ".") < 2 ==> (!found && err != nil)
+//@   ensures local-found-means-bound-to-this-client: found ==> (err == nil && looked && ferr == nil && boundTo(b, token, client))
+//@   ensures local-bound-to-another-client-is-refused: (looked && ferr == nil && !boundTo(b, token, client)) ==> (!found && err != nil)
+//@   ensures local-unbound-hostname-is-not-found: (looked && ferr == tun.ErrHostnameNotFound) ==> (!found && err == nil)
+//@   ensures local-lookup-failure-is-an-error: (looked && ferr != nil && ferr != tun.ErrHostnameNotFound) ==> (!found && err != nil)
+//@   ensures found-implies-no-error: found ==> err == nil
+
+// ---- C30: keyless TLS
+//@ macro remainingAfterSkew(leaf *x509.Certificate, now time.Time) int64 = leaf.NotAfter.UnixNano() - 60000000000 - now.UnixNano()
+
+//@ func computeKeylessTTL(cert *tls.Certificate, now time.Time) (r time.Duration)
+//@   safety off
+//@   opt frame=off
+//@   ghost used *x509.Certificate = nil
+//@   at call Add#1: assert the-parsed-leaf-is-preferred: (cert.Leaf != nil ==> leaf == cert.Leaf) && callarg1 == -60000000000
+//@   at call Add#1: ghost used := leaf
+//@   ensures always-positive-and-capped: 0 < r && r <= keylessPositiveTTL
+//@   ensures never-past-expiry-minus-skew: (cert != nil && cert.Leaf != nil && remainingAfterSkew(cert.Leaf, now) > 0) ==> r <= remainingAfterSkew(cert.Leaf, now)
+//@   ensures expired-certificate-gets-the-minimum: (cert != nil && cert.Leaf != nil && remainingAfterSkew(cert.Leaf, now) <= 0) ==> r == 1000000000
+//@   ensures local-same-for-a-leaf-parsed-on-the-fly: used != nil ==> ((remainingAfterSkew(used, now) > 0 ==> r <= remainingAfterSkew(used, now)) && (remainingAfterSkew(used, now) <= 0 ==> r == 1000000000))
+
+//@ func (s *Server) keylessCertLoader(ctx context.Context, hostname string) (ret theine.Loaded[keylessCertResult], loadErr error)
+//@   safety off
+//@   opt frame=off
+//@   ghost ttl0 time.Duration = 0
+//@   ghost computed bool = false
+//@   ghost got *tls.Certificate = nil
+//@   at after call GetCertificateWithContext#1: ghost got := callresult0
+//@   at call computeKeylessTTL#1: assert ttl-is-computed-for-the-returned-certificate: callarg0 == got && got != nil
+//@   at after call computeKeylessTTL#1: ghost ttl0 := callresult
+//@   at after call computeKeylessTTL#1: ghost computed := true
+//@   ensures never-errors: loadErr == nil
+//@   ensures ttl-always-positive: ret.TTL > 0
+//@   ensures local-cached-certificate-lives-no-longer-than-computed: ret.Value.cert != nil ==> (computed && ret.Value.cert == got && ret.TTL == ttl0 && ret.Value.err == nil)
+//@   ensures failures-are-cached-briefly: ret.Value.cert == nil ==> (ret.Value.err != nil && ret.TTL == keylessFailedTTL)
+//@   ensures ttl-order: keylessFailedTTL < keylessPositiveTTL
+
+//@ func (s *Server) getCertificate(ctx context.Context, proof *protocol.ProofOfWork, hostname string) (cert *tls.Certificate, err error)
+//@   safety off
+//@   opt frame=off
+//@   ghost aerr error = nil
+//@   ghost nerr error = nil
+//@   ghost cerr error = nil
+//@   ghost bound bool = false
+//@   ghost served bool = false
+//@   at after call extractAuthenticated#1: ghost aerr := callresult2
+//@   at after call Normalize#1: ghost nerr := callresult1
+//@   at call checkAcme#1: assert binding-checked-for-the-normalized-name-and-the-callers-identity: aerr == nil && nerr == nil && callarg2 == normalized && callarg3 == proof && callarg4 == token && callarg5 == client
+//@   at after call checkAcme#1: ghost cerr := callresult1
+//@   at after call checkAcme#1: ghost bound := callresult0
+//@   at call Get#1: assert certificate-only-for-the-bound-client-with-valid-proof: aerr == nil && nerr == nil && cerr == nil && bound && callarg2 == normalized
+//@   at call Get#1: ghost served := true
+//@   ensures local-success-only-through-the-binding-check: err == nil ==> served
+//@   ensures local-unbound-or-foreign-hostname-is-refused: (aerr == nil && nerr == nil && cerr == nil && !bound) ==> (err != nil && cert == nil && !served)
+
+//@ func (s *Server) Sign(ctx context.Context, req *protocol.KeylessSignRequest) (resp *protocol.KeylessSignResponse, err error)
+//@   safety off
+//@   opt frame=off
+//@   requires req != nil
+//@   ghost gerr error = nil
+//@   ghost signed bool = false
+//@   at after call getCertificate#1: ghost gerr := callresult1
+//@   at call getCertificate#1: assert certificate-is-requested-with-the-callers-proof-and-hostname: callarg2 == req.Proof && callarg3 == req.Hostname
+//@   at call Sign#1: assert signs-only-with-a-certificate-a-supported-hash-and-an-exact-length-digest: gerr == nil && callarg1 == req.Digest && ((req.Algo == protocol.KeylessSignRequest_SHA256 && len(req.Digest) == 32) || (req.Algo == protocol.KeylessSignRequest_SHA384 && len(req.Digest) == 48) || (req.Algo == protocol.KeylessSignRequest_SHA512 && len(req.Digest) == 64))
+//@   at call Sign#1: ghost signed := true
+//@   ensures local-success-means-signed: err == nil ==> signed
